@@ -1714,6 +1714,8 @@ async fn controller(scn: Arc<Scenario>, chooser: &mut dyn Chooser) -> (Vec<StepR
     }
     #[cfg(feature = "f_testutils")]
     ev(EvK::DlCount { delta: rsactor::dead_letter_count() });
+    #[cfg(feature = "f_deadlock")]
+    ev(EvK::LockPoisoned { poisoned: rsactor::verif::wait_for_lock_poisoned() });
     graph_snapshot();
     drop(client_tasks);
     (steps, points, actions)
